@@ -121,8 +121,11 @@ Definition local_variables (root : die) (pc : N) : res (list vnode) :=
 
 (* FatDieRef<Function>::local_variable (die_ref.rs:328): `var NAME`; the traversal returns
    at the first DIE for which the callback answers Some *)
+(* AFTER fix_2: the whole traversal runs and the LAST candidate is kept (deepest, because the
+   breadth-first order is non-decreasing in depth; the later one among equally deep ones) *)
+Definition last_opt {A} (l : list A) : option A := match rev l with [] => None | x :: _ => Some x end.
 Definition local_variable (root : die) (pc name : N) : res (option vnode) :=
-  vs <- visit is_scope_model root ;; Ok (find (candidate pc name) vs).
+  vs <- visit is_scope_model root ;; Ok (last_opt (filter (candidate pc name) vs)).
 
 (* FatDieRef<Function>::parameters (die_ref.rs:345): direct children only, no pc filter *)
 Definition parameters (root : die) : list die := filter is_param (d_children root).
@@ -130,9 +133,9 @@ Definition parameters (root : die) : list die := filter is_param (d_children roo
 (* ------------------------------------------------------------------ *)
 (** * Location selection (location.rs:19 try_as_expression)             *)
 
-(* `list_entry.range.begin <= pc && list_entry.range.end >= pc`; `Err(_) => true` *)
+(* AFTER fix_3: `list_entry.range.begin <= pc && pc < list_entry.range.end`; `Err(_) => true` *)
 Definition lentry_match (pc : N) (e : lentry) : bool :=
-  match e with LEntry b en _ => (b <=? pc) && (pc <=? en) | LBad => true end.
+  match e with LEntry b en _ => (b <=? pc) && (pc <? en) | LBad => true end.
 
 Definition loclist_select (pc : N) (l : list lentry) : option N :=
   match find (lentry_match pc) l with
